@@ -20,6 +20,29 @@ instances overlay each other by construction, so subprogram locals are scratch
 that is live only while that subprogram's program() is being executed.  Every
 statement is therefore judged once per context: 'main' (no subprogram local is
 live) and 'sub k' (the locals of instance k are live).
+
+Two further dimensions of the enumeration:
+ lookup block  on every shape with a Dict every statement of the alphabet
+          (but update()/lookup themselves) is also issued inside a
+          `with d.lookup() as (value, Else)` block - r0 is the pointer to the
+          looked-up value - or inside its Else (the key is then missing),
+          followed by an access to a member of the looked-up value
+          (value.m = const, value.m += const, or a read of value.m into the
+          dedicated array-map variable gr).  The whole block is the statement
+          under test: the inner target, and member m of the looked-up entry
+          resp. gr, may change; every other byte of every Dict entry and all
+          other variables are sentinels; a read member must arrive as the
+          entry's sentinel (third observer 'readback').
+ history  statements that use stack temporaries or save registers (and one
+          plain store per shape for the static observer) are also built on a
+          main class that is instantiated more than once, as FastSyncGroup
+          is: another instance H with a different subprogram list (none / one
+          without locals / one with a 24 byte frame) is constructed and
+          assembled before the instance under test T is constructed ('pre')
+          or between T's construction and T's assemble() ('mid'), and once
+          more after T is complete; T is then judged as always, and the
+          places its descriptors report must not have moved.  All other cases
+          use a fresh class with a single instance.
 """
 import contextlib
 import itertools
@@ -38,11 +61,18 @@ PROP = "C04"
 LEVEL = "model_checking"
 RULE = ("programs = shape (main locals sequence, Dict position, subprogram "
         "classes x instances with locals) x statement under test (kind x "
-        "target x source); each is executed in the interpreter with two "
+        "target x source, incl. hash-map variable <- hash-map variable; on "
+        "shapes with a Dict also every such statement inside a Dict lookup "
+        "block or its Else, followed by a write/add/read of a member of the "
+        "looked-up value) x history of the main class (fresh class with one "
+        "instance; for statements using temporaries also a class shared "
+        "with an instance that has another subprogram list, built before / "
+        "between construction and assembly of / after the instance under "
+        "test); each is executed in the interpreter with two "
         "sentinel sets and judged in every context (main, inside each "
         "subprogram instance); a case is non-trivial when the statement ran to "
         "its end and changed at least one byte of interpreter memory; "
-        "distinct = distinct (shape, statement)")
+        "distinct = distinct (shape, statement, history)")
 
 K_MAIN = ["B", "h", "I", "q", (3, 1), (1, 3)]
 K_SUB = ["B", "I", "q", "h", (3, 1)]
@@ -99,23 +129,38 @@ class Var:
                f"/{self.size}"
 
 
-class Prog:
-    """one shape + one statement"""
+HISTS = {"E": "no subprogram", "S": "one subprogram without locals",
+         "D": "one subprogram with three 8-byte locals"}
+HASHY = ("hget", "hset", "hsetx", "hsetr")
 
-    def __init__(self, shape, stmt):
-        self.shape, self.stmt = shape, stmt
+
+class Prog:
+    """one shape + one statement (+ one history of the main class)
+
+    hist None: a fresh main class with the one instance under test T.
+    hist (kind, order): the same class object is instantiated several times,
+    as ebpfcat does with FastSyncGroup: H (another subprogram list, see HISTS)
+    is constructed and assembled before T is constructed (order 'pre') or
+    between T's construction and T's assemble() (order 'mid'); in both
+    orders one more H is constructed and assembled after T is complete."""
+
+    def __init__(self, shape, stmt, hist=None):
+        self.shape, self.stmt, self.hist = shape, stmt, hist
         main, dictpos, subcls, insts = shape
         self.fake = FakeMaps()
         self.templog = []
         self.in_stmt = False
         self._sent = {}
         self._mapidx = {}
+        self.e = None
+        self.hit_key = None
         prog = self
         Key = type("Key", (Structure,), {"kI": Member("I"),
                                          "kB": Member("B")})
         Val = type("Val", (Structure,), {"vq": Member("q"),
                                          "vI": Member("I"),
                                          "vB": Member("B")})
+        self.Val = Val
         attrs = {"minimumPacketSize": GUARD}
         if dictpos == "first":
             attrs["d"] = Dict(key=Key, value=Val, size=4)
@@ -127,6 +172,8 @@ class Prog:
         attrs["ga"] = amap.globalVar("I")
         attrs["gb"] = amap.globalVar("q")
         attrs["gf"] = amap.globalVar((2, 1))
+        attrs["gr"] = amap.globalVar("Q")
+        attrs["gm"] = amap.globalVar("4I")   # several items: only a sentinel
         hmap = attrs["hmap"] = HashMap()
         attrs["hv"] = hmap.globalVar("Q")
         attrs["hw"] = hmap.globalVar("i")
@@ -142,7 +189,10 @@ class Prog:
         attrs["get_stack"] = get_stack
 
         def program(e):
-            prog.emit(e)
+            if e is prog.e:
+                prog.emit(e)
+            else:
+                prog.emit_other(e)
         attrs["program"] = program
         self.scls = []
         for j, locs in enumerate(subcls):
@@ -151,17 +201,60 @@ class Prog:
             self.scls.append(type(f"S{j}", (SubProgram,), sattrs))
         self.subs = [self.scls[c]() for c in insts]
         cls = self.cls = type("C04P", (XDP,), attrs)
+        kind, order = hist if hist else (None, None)
+        if kind == "S":
+            self.hcls = type("HS", (SubProgram,),
+                             {"sa": amap.globalVar("H")})
+        elif kind == "D":
+            self.hcls = type("HD", (SubProgram,), dict(
+                {f"l{i}": LocalVar("q") for i in range(3)},
+                sa=amap.globalVar("H")))
         with self.fake.bound():
+            if order == "pre":
+                self.other(kind)
+            self.fd0 = len(self.fake.fds)
             e = self.e = cls(license="GPL", subprograms=self.subs)
             self.main_stack = cls.stack
             self.collect_vars()
+            if order == "mid":
+                self.other(kind)
             self.code = e.assemble()
+            if hist:
+                self.other(kind)
+        self.moved = []
+        if hist:
+            first = self.vars
+            self.collect_vars()
+            self.moved = [(a, b) for a, b in zip(first, self.vars)
+                          if (a.region, a.off, a.size)
+                          != (b.region, b.off, b.size)]
+            self.vars = first
+            self.byvar = {v.path: v for v in first}
         self.insns = bpfvm.decode(self.code)
+
+    def other(self, kind):
+        """another instance of the same main class, constructed and
+        assembled"""
+        subs = [] if kind == "E" else [self.hcls()]
+        self.cls(license="GPL", subprograms=subs).assemble()
+
+    def emit_other(self, e):
+        e.hw = e.hv + 1
+        e.ga = e.hv
+        for p in e.subprograms:
+            for n, d in type(p).__dict__.items():
+                if isinstance(d, LocalVar):
+                    setattr(p, n, 1)
+            p.sa = 2
+        if self.shape[1] != "none":
+            e.d.key.kI = 1
+            with e.d.lookup() as (value, Else):
+                value.vI = 2
 
     # ---------------------------------------------------------- variables
     def holder(self, path):
         k = path[0]
-        if k in ("m", "ga", "gb", "gf", "hv", "hw", "pv", "pw"):
+        if k in ("m", "ga", "gb", "gf", "gr", "gm", "hv", "hw", "pv", "pw"):
             return self.e, (f"m{path[1]}" if k == "m" else k)
         if k == "dk":
             return self.e.d.key, path[1]
@@ -203,7 +296,7 @@ class Prog:
                 add(("dk", m), "stack", base=512)
             for m in ("vq", "vI", "vB"):
                 add(("dv", m), "stack", base=512)
-        for g in ("ga", "gb", "gf"):
+        for g in ("ga", "gb", "gf", "gr", "gm"):
             add((g,), "arr")
         add(("pv",), "pkt")
         add(("pw",), "pkt")
@@ -268,6 +361,10 @@ class Prog:
         # operand registers only where the statement needs them (a hash-map
         # access has to save every owned register below r6 in a free one)
         k = self.stmt[0]
+        if k == "in":
+            # in a lookup block r0 is taken as well: the expressions get
+            # constants instead of operand registers there
+            pass
         if k in ("expr", "hsetx", "hsetr"):
             self.ld64(2, 0x0102030405060708)
         if k == "expr":
@@ -296,6 +393,26 @@ class Prog:
 
     def statement(self, e):
         st = self.stmt
+        if st[0] != "in":
+            return self.do(e, st)
+        # the inner statement inside a Dict lookup block (r0 = pointer to
+        # the looked-up value) or inside its Else, and an access to a member
+        # of the looked-up value after it
+        _, place, inner, member, access = st
+        with e.d.lookup() as (value, Else):
+            if place == "body":
+                self.do(e, inner, True)
+            if access == "set":
+                setattr(value, member, 9)
+            elif access == "iadd":
+                setattr(value, member, _iadd(getattr(value, member), 3))
+            else:
+                e.gr = getattr(value, member)
+        if place == "else":
+            with Else:
+                self.do(e, inner, True)
+
+    def do(self, e, st, inblock=False):
         k = st[0]
         if k == "const":
             self.set(st[1], 1 if self.isbit(st[1]) == 1 else 5)
@@ -303,6 +420,8 @@ class Prog:
             self.set(st[1], 0)
         elif k == "copy":
             self.set(st[1], self.get(st[2]))
+        elif k == "expr" and inblock:
+            self.set(st[1], (self.get(st[2]) + 0x0102030405) * 3 - 11)
         elif k == "expr":
             self.set(st[1], (self.get(st[2]) + e.r2) * 3 - e.r3)
         elif k == "hget":
@@ -318,6 +437,8 @@ class Prog:
             setattr(h, name, _iadd(getattr(h, name), 3))
         elif k == "hset":
             self.set(st[1], self.get(st[2]))
+        elif k == "hsetx" and inblock:
+            self.set(st[1], self.get(st[2]) + 0x0102030405)
         elif k == "hsetx":
             self.set(st[1], self.get(st[2]) + e.r2)
         elif k == "hsetr":
@@ -345,7 +466,7 @@ class Prog:
         """fresh interpreter with every non-stack variable holding its
         sentinel -> vm"""
         k = self.fake.kernel
-        arr = k.maps[self.fake.fds[self.mapidx("amap")]]
+        arr = self.map("amap")
         arr.area[:] = bytes((0x90 + 7 * i) & 0xff
                             for i in range(len(arr.area)))
         pkt = bytearray((0x40 + 3 * i) & 0xff for i in range(PKTLEN))
@@ -355,7 +476,7 @@ class Prog:
                 arr.area[v.off:v.off + v.size] = s
             elif v.region == "pkt":
                 pkt[v.off:v.off + v.size] = s
-        hm = k.maps[self.fake.fds[self.mapidx("hmap")]]
+        hm = self.map("hmap")
         hm.entries.clear()
         for v in self.vars:
             if isinstance(v.region, tuple):
@@ -363,13 +484,18 @@ class Prog:
                 val[:v.size] = self.sentinel(v, which)
                 hm.entries[bytes([v.region[1]])] = val
         if self.shape[1] != "none":
-            dm = k.maps[self.fake.fds[self.mapidx("d")]]
+            dm = self.map("d")
             dm.entries.clear()
             key = bytearray(b"\x5d" * dm.key_size)
             for m in ("kI", "kB"):
                 v = self.byvar[("dk", m)]
                 o = v.off - (512 + self.cls.__dict__["d"].key_offset)
                 key[o:o + v.size] = self.sentinel(v, which)
+            self.hit_key = bytes(key)
+            if self.stmt[0] == "in" and self.stmt[1] == "else":
+                # the lookup under test misses: its Else is executed
+                self.hit_key = None
+                key = bytearray(b ^ 0xff for b in key)
             dm.entries[bytes(key)] = bytearray(
                 (0xc1 + 5 * i) & 0xff for i in range(dm.value_size))
             dm.entries[bytes(b"\x01" * dm.key_size)] = bytearray(
@@ -377,8 +503,15 @@ class Prog:
         self.packet = pkt
         return bpfvm.VM(k, self.insns, pkt)
 
+    def map(self, name):
+        """the interpreter's map behind Map `name` of the instance under
+        test"""
+        return self.fake.kernel.maps[
+            self.fake.fds[self.fd0 + self.mapidx(name)]]
+
     def mapidx(self, name):
-        """creation order of the maps = order of Map objects in the class"""
+        """creation order of the maps = order of Map objects in the class,
+        for every instance"""
         if not self._mapidx:
             from ebpfcat.ebpf import Map
             names = [n for n, v in self.cls.__dict__.items()
@@ -389,12 +522,12 @@ class Prog:
     def snapshot(self, vm):
         k = self.fake.kernel
         out = {"stack": bytes(vm.stack), "pkt": bytes(self.packet),
-               "arr": bytes(k.maps[self.fake.fds[self.mapidx("amap")]].area)}
-        hm = k.maps[self.fake.fds[self.mapidx("hmap")]]
+               "arr": bytes(self.map("amap").area)}
+        hm = self.map("hmap")
         for key, val in hm.entries.items():
             out[("hash", key[0])] = bytes(val)
         if self.shape[1] != "none":
-            dm = k.maps[self.fake.fds[self.mapidx("d")]]
+            dm = self.map("d")
             out["dict"] = tuple(sorted((kk, bytes(vv))
                                        for kk, vv in dm.entries.items()))
         return out
@@ -447,8 +580,75 @@ def target_bytes(prog):
     st = prog.stmt
     if st[0] == "dupd" or st[0] == "dlook":
         return "dict"
+    if st[0] == "in":
+        out = set(prog.byvar[st[2][1]].bytes_())
+        if st[1] == "body" and st[4] == "get":
+            out |= prog.byvar[("gr",)].bytes_()
+        return out
     v = prog.byvar[st[1]]
     return v.bytes_()
+
+
+def target_name(prog):
+    st = prog.stmt
+    if st[0] in ("dupd", "dlook"):
+        return "the Dict entry"
+    if st[0] != "in":
+        return str(prog.byvar[st[1]])
+    out = [str(prog.byvar[st[2][1]])]
+    if st[1] == "body":
+        out.append(str(prog.byvar[("gr",)]) if st[4] == "get" else
+                   f"member {st[3]} of the looked-up Dict entry")
+    return " and ".join(out)
+
+
+def member_range(prog, member):
+    d = prog.Val.__dict__[member]
+    return d.relative_addr, fmtsize(d.fmt)
+
+
+def judge_lookup(prog, status, before, after, res, report):
+    """statement kind 'in': the Dict entries and the value read back"""
+    _, place, inner, member, access = prog.stmt
+    bd, ad = dict(before["dict"]), dict(after["dict"])
+    lo, n = member_range(prog, member)
+    bad = []
+    if sorted(bd) != sorted(ad):
+        bad.append("the set of keys changed")
+    for key in sorted(bd):
+        b, a = bd[key], ad.get(key, bd[key])
+        diff = [i for i in range(len(b)) if b[i] != a[i]]
+        if key == prog.hit_key and access != "get":
+            diff = [i for i in diff if not lo <= i < lo + n]
+        if diff:
+            bad.append(f"entry {key.hex()} bytes {diff}")
+    if place == "body" and access != "get" and \
+            bd[prog.hit_key][lo:lo + n] != \
+            ad.get(prog.hit_key, bd[prog.hit_key])[lo:lo + n]:
+        res.count("lookup_member_written")
+    if place == "else" and status == "end":
+        res.count("lookup_else_executed")
+    if bad:
+        report("dynamic", "main",
+               "Dict entries unchanged" + (
+                   f" but for bytes [{lo}, {lo + n}) of entry "
+                   f"{prog.hit_key.hex()}"
+                   if prog.hit_key is not None and access != "get" else ""),
+               "; ".join(bad), None,
+               "Dict map changed by an unrelated statement")
+    if place == "body" and access == "get" and status == "end":
+        gr = prog.byvar[("gr",)]
+        exp = bd[prog.hit_key][lo:lo + n] + bytes(8 - n)
+        obs = after["arr"][gr.off:gr.off + 8]
+        if exp == obs:
+            res.count("lookup_member_read_back")
+        else:
+            report("readback", "main",
+                   f"member {member} of the looked-up entry reads back its "
+                   f"sentinel {exp.hex()} after the inner statement",
+                   f"read {obs.hex()}", None,
+                   "looked-up Dict member read back wrong after an "
+                   "unrelated statement")
 
 
 def static_observer(prog, res, report):
@@ -461,6 +661,11 @@ def static_observer(prog, res, report):
             continue
         report("static", None, f"{a} and {b} are disjoint",
                f"{a} and {b} overlap", None, "declared variables overlap")
+    for a, b in prog.moved:
+        report("static", None,
+               f"{a} stays where it is when another instance of the class "
+               "is built", f"its descriptor now reports {b}", None,
+               "variable moved by another instance of the program class")
 
 
 def judge(prog, status, before, after, res, report):
@@ -477,6 +682,8 @@ def judge(prog, status, before, after, res, report):
     tgt = target_bytes(prog)
     if tgt == "dict":
         tgt = set()
+    elif prog.stmt[0] == "in":
+        judge_lookup(prog, status, before, after, res, report)
     elif before.get("dict") != after.get("dict"):
         report("dynamic", "main", "Dict entries unchanged",
                "statement changed entries of the Dict", None,
@@ -496,14 +703,13 @@ def judge(prog, status, before, after, res, report):
             if not vs:
                 continue
             kf = None
-            if ctx != "main" and temps_below and all(v in own for v in vs) \
+            if ctx != "main" and prog.hist is None and temps_below \
+                    and all(v in own for v in vs) \
                     and all(((v.bytes_() & changed) - tgt) <= temps
                             for v in vs if kind == "dynamic"):
                 kf = KF_TEMP
             if kind == "dynamic":
-                exp = "only " + (str(prog.byvar[prog.stmt[1]])
-                                 if prog.stmt[0] not in ("dupd", "dlook")
-                                 else "the Dict entry") + " changes"
+                exp = "only " + target_name(prog) + " changes"
                 obs = "also changed: " + ", ".join(
                     f"{v} {sorted(o for r, o in (v.bytes_() & changed))}"
                     for v in vs)
@@ -525,10 +731,16 @@ _stored = {}
 KEEP = 2      # stored violations per signature and work item (shape)
 
 
-def run_case(shape, stmt, res, caseno):
-    cj = dict(shape=shape_json(shape), stmt=list(stmt))
+def kindname(stmt, hist):
+    k = stmt[0] if stmt[0] != "in" else f"in-{stmt[1]}:{stmt[2][0]}"
+    return k + ("" if hist is None else "@" + "-".join(hist))
+
+
+def run_case(shape, stmt, hist, res, caseno):
+    cj = dict(shape=shape_json(shape), stmt=list(stmt),
+              hist=list(hist) if hist else None)
     try:
-        p = Prog(shape, stmt)
+        p = Prog(shape, stmt, hist)
     except core.Internal:
         raise
     except Exception as e:
@@ -536,6 +748,10 @@ def run_case(shape, stmt, res, caseno):
         res.outcomes.add("rejected:" + type(e).__name__)
         return
     res.count("programs")
+    if hist:
+        res.count("programs_with_history")
+    if stmt[0] == "in":
+        res.count("programs_in_lookup_block")
     seen = set()
 
     def report(kind, ctx, exp, obs, kf, note):
@@ -544,7 +760,7 @@ def run_case(shape, stmt, res, caseno):
             return
         seen.add(key)
         sig = core.digest([kind, ctxname(ctx) if ctx else None, note,
-                           stmt[0], str(kf)])
+                           kindname(stmt, hist), str(kf)])
         n = _stored[sig] = _stored.get(sig, 0) + 1
         if n > KEEP:
             res.count("violations_not_stored")
@@ -562,10 +778,10 @@ def run_case(shape, stmt, res, caseno):
             continue
         if status.startswith("trap"):
             res.count("trapped")
-            res.outcomes.add(("trap", stmt[0], status[6:40]))
+            res.outcomes.add(("trap", kindname(stmt, None), status[6:40]))
             continue
         n = judge(p, status, before, after, res, report)
-        res.outcomes.add((status, stmt[0], min(n, 9)))
+        res.outcomes.add((status, kindname(stmt, None), min(n, 9)))
         if status == "end" and n:
             res.nontrivial.add(caseno)
 
@@ -638,11 +854,78 @@ def statements(shape, quick):
             out.append(("hset", h, s))
         out.append(("hsetx", h, sources[-1]))
         out.append(("hsetr", h))
+    # hash-map variable <- hash-map variable (the pointer of the source's
+    # map value is handed to map_update_elem directly)
+    out.append(("hset", ("hv",), ("hw",)))
+    out.append(("hset", ("hw",), ("hv",)))
     if dictpos != "none":
         out.append(("dupd",))
         for m in ("vq", "vB"):
             out.append(("dlook", m, "set", True))
             out.append(("dlook", m, "iadd", False))
+    return out
+
+
+# (place, member of the looked-up value, access after the inner statement)
+LOOKUP_QUICK = [("body", "vq", "set")]
+LOOKUP_QUICK_HASHY = [("body", "vI", "get"), ("body", "vq", "iadd"),
+                      ("else", "vq", "set")]
+LOOKUP_THOROUGH = [("body", "vq", "set"), ("body", "vI", "get"),
+                   ("else", "vq", "set")]
+LOOKUP_THOROUGH_HASHY = [("body", "vq", "iadd"), ("body", "vB", "set"),
+                         ("body", "vq", "get"), ("else", "vI", "get")]
+LOOKUP_HIST = {True: [("body", "vq", "set")],
+               False: [("body", "vq", "set"), ("else", "vq", "set")]}
+HIST_QUICK = [("S", "pre"), ("S", "mid"), ("D", "pre")]
+HIST_THOROUGH = [(k, o) for k in "ESD" for o in ("pre", "mid")]
+
+
+STORAGE = dict(m="main", dk="dict", dv="dict", ga="arr", gb="arr", gf="arr",
+               sa="arr", pv="pkt", pw="pkt", s="sub")
+
+
+def uses_temporaries(st):
+    """statements that take stack temporaries / save registers around a
+    helper call: what a wrong idea of the frames of this instance breaks"""
+    if st[0] == "in":
+        return st[2][0] in HASHY
+    return st[0] in HASHY or st[0] in ("dupd", "dlook")
+
+
+def cases(shape, quick):
+    """-> [(statement, history)]: every statement on a fresh class; on a
+    shape with a Dict every statement also inside a lookup block; statements
+    using temporaries (and one plain store, for the static observer) under
+    every history of the main class"""
+    plain = statements(shape, quick)
+    wrapped = []
+    if shape[1] != "none":
+        for st in plain:
+            if st[0] in ("dupd", "dlook", "hsetr"):
+                # update/lookup take r0 themselves; with r0, r1 (context)
+                # and an operand register taken, 'hashvar = register' is
+                # always rejected there ("not enough registers")
+                continue
+            vs = LOOKUP_QUICK if quick else LOOKUP_THOROUGH
+            if st[0] in HASHY:
+                vs = vs + (LOOKUP_QUICK_HASHY if quick
+                           else LOOKUP_THOROUGH_HASHY)
+            wrapped += [("in", place, st, member, access)
+                        for place, member, access in vs]
+    out = [(st, None) for st in plain + wrapped]
+    # under a history 'var = hashvar' goes to one target per kind of storage
+    # (main frame, Dict areas, array map, packet, subprogram frame)
+    reps = {}
+    for st in plain:
+        if st[0] == "hget":
+            reps.setdefault(STORAGE[st[1][0]], st[1])
+    withhist = [plain[0]] + [
+        st for st in plain + wrapped if uses_temporaries(st)
+        and (st[0] != "in" or st[1:2] + st[3:] in LOOKUP_HIST[quick])
+        and ((st[2] if st[0] == "in" else st)[0] != "hget"
+             or (st[2] if st[0] == "in" else st)[1] in reps.values())]
+    for h in (HIST_QUICK if quick else HIST_THOROUGH):
+        out += [(st, h) for st in withhist]
     return out
 
 
@@ -682,8 +965,8 @@ def shapes(ctx):
 def work(item, res):
     (shape, quick), base = item
     _stored.clear()
-    for i, st in enumerate(statements(shape, quick)):
-        run_case(shape, st, res, base + i)
+    for i, (st, hist) in enumerate(cases(shape, quick)):
+        run_case(shape, st, hist, res, base + i)
 
 
 def run(ctx):
@@ -691,15 +974,25 @@ def run(ctx):
     base = 0
     for sh in shapes(ctx):
         items.append(((sh, ctx.quick), base))
-        base += len(statements(sh, ctx.quick))
+        base += len(cases(sh, ctx.quick))
     res = core.pmap(ctx, work, items, chunk=2)
     res.cov["states"] = len(res.nontrivial)
     res.cov["traces_validated_against_impl"] = res.cov.get("evaluations", 0)
-    res.cov["alphabet"] = dict(shapes=len(items), programs_enumerated=base,
-                               main_kinds=[fmtname(k) for k in K_MAIN],
-                               sub_kinds=[fmtname(k) for k in K_SUB])
+    res.cov["alphabet"] = dict(
+        shapes=len(items), programs_enumerated=base,
+        main_kinds=[fmtname(k) for k in K_MAIN],
+        sub_kinds=[fmtname(k) for k in K_SUB],
+        lookup_block=[list(v) for v in (
+            LOOKUP_QUICK + LOOKUP_QUICK_HASHY if ctx.quick
+            else LOOKUP_THOROUGH + LOOKUP_THOROUGH_HASHY)],
+        histories=["-".join(h) for h in (HIST_QUICK if ctx.quick
+                                         else HIST_THOROUGH)],
+        history_instances=HISTS)
     res.sample(dict(shape=shape_json((("q",), "none", (("I",),), (0,))),
-                    stmt=["hget", ["m", 0], ["hv"]]))
+                    stmt=["hget", ["m", 0], ["hv"]], hist=None))
+    res.sample(dict(shape=shape_json((("q",), "last", (("I",),), (0,))),
+                    stmt=["in", "body", ["hset", ["hw"], ["hv"]], "vq",
+                          "set"], hist=["S", "pre"]))
     res.assumptions += [
         "frames of different subprogram instances overlay each other by "
         "construction (pinned by the suite's test_local_subprog): subprogram "
@@ -713,6 +1006,22 @@ def run(ctx):
         "generator is counted, not alarmed (loadability is C05's subject)",
         "registers are not declared variables; the operand registers r2/r3 "
         "and the map base registers are only observed through their effects",
+        "inside a Dict lookup block the looked-up entry is a declared "
+        "variable (its Structure members): the block may change the inner "
+        "statement's target and the accessed member only; whether the "
+        "member write itself stores the right value is not judged here "
+        "(C01/C02), only that a member read after the inner statement "
+        "delivers the entry's bytes.  update() and a nested lookup are not "
+        "issued inside a lookup block (they take r0 themselves)",
+        "histories: several instances of one program class with different "
+        "subprogram lists are a supported use (ebpfcat.ebpfcat builds every "
+        "FastSyncGroup this way); the other instance runs a fixed small "
+        "program (hash-map read and write, stores to its subprograms' "
+        "locals, a Dict lookup).  Under a history only statements that use "
+        "stack temporaries or save registers are enumerated (hash-map "
+        "variable reads with one target per kind of storage, all hash-map "
+        "variable writes, Dict update/lookup, and these inside a lookup "
+        "block), plus one plain store per shape",
     ]
     return res
 
@@ -725,12 +1034,13 @@ def replay(ctx, rep):
     def tup(x):
         return tuple(tup(y) for y in x) if isinstance(x, list) else x
     stmt = tup(c["stmt"])
-    run_case(shape, stmt, res, 0)
-    p = Prog(shape, stmt)
+    hist = tup(c.get("hist"))
+    run_case(shape, stmt, hist, res, 0)
+    p = Prog(shape, stmt, hist)
     print("variables:", p.vars)
     print("main frame ends at r10%+d, statement = pcs [%d, %d), "
           "temporaries %s" % (p.main_stack, p.start, p.end, p.templog))
     print(bpfvm.disasm(p.insns[p.start:p.end]))
     return [v for v in res.violations
-            if v["case"]["context"] == c["context"]
+            if tup(core.jsonable(v["case"]["context"])) == tup(c["context"])
             and v["case"]["observer"] == c["observer"]]
